@@ -22,6 +22,8 @@ class IterCheck(PropCheck):
         scenarios = [it.gen_scenario(rng, self.profile) for _ in range(n)]
         if self.pid == "C11":
             scenarios += it.close_window_sweep(rng)
+        if self.pid == "C09":
+            scenarios += it.pending_window_sweep(rng)
         results = it.run_many(scenarios)
         def differs(r):
             return core.first_diff(r["model"] + [r["model_end"]], r["impl"] + [r["status"]]) is not None
